@@ -18,6 +18,14 @@ PINS = [
     # Compressor/Decompressor, SourceTree::{iter_entries, open_file}, Apath::below, the Transport dispatchers and the local
     # back end's read/list_dir/metadata/remove_*/chdir) are now EXTRACTED and proved in units sourcemeta, blockopen and
     # localread, with LINK wrappers to the callers' shims: a change there is judged by their own labelled clauses.
+    ('src/excludes.rs', 'impl Exclude', 'from_strings', ['exclude'], r'fn from_patterns_and_files', 'a one-line delegation to from_patterns_and_files that hands the caller\'s patterns over UNCHANGED (C15; seed C15-5 trimmed them there)'),
+    ('src/owner/unix.rs', 'impl From<&fs::Metadata> for Owner', 'from', ['sourcemeta'], r'Owner::from\(', 'the owner of an entry is (user_name(uid), group_name(gid)) looked up for THAT entry, no state carried from the previous one (C01, C18; seeds C01-5/C18-5 memoised by uid only)'),
+    ('src/excludes.rs', '-', 'add_patterns_from_file', ['exclude'], r'add_patterns_from_file\(', 'every non-blank, non-comment line of an exclude file becomes a pattern through add_pattern (C15)'),
+    ('src/blockdir.rs', 'impl BlockDir', 'validate', ['validate'], r'block_dir\b[^;]*\.validate\(|\.validate\(monitor', 'full validation reads and hashes every stored block and returns their lengths (C09)'),
+    ('src/blockdir.rs', 'impl BlockDir', 'compressed_size', ['validate', 'gc'], r'compressed_size\(', 'stat of the block file (C09: present-but-unread blocks in quick validation)'),
+    ('src/archive.rs', 'impl Archive', 'validate_archive_dir', ['validate'], r'validate_archive_dir\(', 'reports unexpected entries of the archive root (C09)'),
+    ('src/archive.rs', 'impl Archive', 'iter_entries', ['bandinfo', 'stitch'], r'fn iter_entries|Stitch::new\(', 'open_stored_tree(policy) then StoredTree::iter_entries with the caller\'s subtree and exclusions (C08, C12, C15)'),
+    ('src/diff.rs', '-', 'diff', ['merge'], r'fn next', 'builds the merge of the stored tree (Specified/LatestClosed policy) and the source walk with the caller\'s exclusions (C18)'),
     ('src/gc_lock.rs', 'impl Drop for GarbageCollectionLock', 'drop', ['gc'], r'GarbageCollectionLock|\block\b', 'the lock file is removed only by the lock that created it (C07, C05)'),
 ]
 
